@@ -781,6 +781,10 @@ func (e *termEval) scanTerm(d *def, fr *frame) *Term {
 	table := "?"
 	for _, v := range sc.Site.Variants {
 		st := v.Stmt()
+		if st != nil && st.Kind == sqlp.SPragma {
+			cols = append(cols, "pragma:"+st.PragmaName)
+			continue
+		}
 		if st == nil || st.Select == nil || d.col >= len(st.Select.Cols) {
 			continue
 		}
@@ -961,12 +965,13 @@ func (m *Model) writeUnits(e *termEval) []*writeUnit {
 				case ex == nil:
 					wu.Cols[col] = colSrc{Kind: "unassigned"}
 				case ex.Kind == sqlp.EParam:
-					b, ok := dw.Site.bindingFor(ex)
+					cs := dw.siteFor(col)
+					b, ok := cs.bindingFor(ex)
 					if !ok || b.V == nil {
 						wu.Cols[col] = colSrc{Kind: "bound", Term: &Term{Kind: "opaque", Name: "unbound-parameter"}, Expr: ex}
 					} else {
 						bfr := fr
-						wu.Cols[col] = colSrc{Kind: "bound", Term: e.term(b.V, dw.Site.Call, bfr), Expr: ex}
+						wu.Cols[col] = colSrc{Kind: "bound", Term: e.term(b.V, cs.Call, bfr), Expr: ex}
 					}
 				case ex.Kind == sqlp.ELit:
 					wu.Cols[col] = colSrc{Kind: "literal", Expr: ex}
@@ -1069,7 +1074,7 @@ func (m *Model) eventAtReturns(e *termEval, K *ssa.Function) (map[*types.Var]*Te
 func (m *Model) isWriteHelper(fn *ssa.Function) bool {
 	for _, p := range fn.Params {
 		t := p.Type()
-		if isPtrToNamed(t, "database/sql", "Tx") || t == types.Type(m.A.Queryable) {
+		if isPtrToNamed(t, "database/sql", "Tx") || isPtrToNamed(t, "database/sql", "DB") || t == types.Type(m.A.Queryable) {
 			return true
 		}
 		if pt, ok := t.(*types.Pointer); ok && m.A.EventType != nil && pt.Elem() == m.A.EventType && p != fn.Params[0] {
